@@ -46,7 +46,8 @@ class C10(MsgProp):
             for _ in range(6 if not thorough else 40):
                 S, G, C = g.msm_sets(r, f["gnss"])
                 cases.append((S, G, C, None))
-            for inv in ("sat0", "sat65", "badsig", "dupsat", "dupcell", "mismatch-extra-sat", "mismatch-extra-cell", "cells65"):
+            for inv in ("sat0", "sat65", "badsig", "dupsat", "dupcell", "mismatch-extra-sat", "mismatch-extra-cell", "cells65",
+                        "only-sats", "only-cells"):
                 cases.append((None, None, None, inv))
             for S, G, C, inv in cases:
                 head = []
@@ -111,7 +112,7 @@ class C10(MsgProp):
     EXPECTED = {"sat0": "InvalidSatelliteId", "sat65": "InvalidSatelliteId", "badsig": "InvalidSignalId",
                 "dupsat": "DuplicateSatellite", "dupcell": "DuplicateSatelliteSignal",
                 "mismatch-extra-sat": "SatelliteMismatch", "mismatch-extra-cell": "SatelliteMismatch",
-                "cells65": "InvalidSatelliteSignalCount"}
+                "cells65": "InvalidSatelliteSignalCount", "only-sats": "SatelliteMismatch", "only-cells": "SatelliteMismatch"}
 
     def run(self, ctx):
         extra = super().run(ctx)
